@@ -80,7 +80,20 @@ def check_files(files, order=None, as_dir=False, action='check', timeout=60):
         if as_dir:
             args = [action, d]
         else:
-            args = [action] + [paths[n] for n in (order or list(files))]
+            # an entry of `order` may be a tuple of names: those files are moved into a directory of their own and the
+            # directory is the argument
+            args = [action]
+            for k, n in enumerate(order or list(files)):
+                if isinstance(n, tuple):
+                    # (named so that the full paths keep the order of the file names: the files of a set are analysed in
+                    #  the order of their paths, so moving a file elsewhere could legitimately change e.g. which of two
+                    #  duplicates is "the later one")
+                    sub = os.path.join(w.path, 'src', n[0] + '.d')
+                    os.makedirs(sub, exist_ok=True)
+                    for m in n: os.replace(paths[m], os.path.join(sub, m))
+                    args.append(sub)
+                else:
+                    args.append(paths[n])
         r = run_cli(args, timeout=timeout)
     r['diags'] = parse_diags(r['stderr'])
     r['labels'] = parse_diags(r['stderr'], all_labels=True)
